@@ -140,8 +140,13 @@ def cases(tier):
                 for mc in ((None, 2) if prefetch else (None,)):
                     for cb in (False, True):
                         for eager in (False, True):
-                            if big and (cb or op == "get") and not (quick and prefetch and mc is None):
-                                continue
+                            if big and (cb or op == "get"):
+                                # the 102-chunk file: all option variants only with prefetch + unlimited
+                                # concurrency (quick) / for 809 bytes (thorough); 1609 bytes: getfo, no callback
+                                if quick and not (prefetch and mc is None):
+                                    continue
+                                if not quick and size > 809:
+                                    continue
                             for fl in rfaults:
                                 out.append({"op": op, "size": size, "prefetch": prefetch, "mc": mc, "cb": cb,
                                             "eager": eager, "fault": fl})
